@@ -1,7 +1,7 @@
 #!/bin/bash
 # tools/run_all.sh quick|thorough [seed]   - runs every claimed check, prints one line each
 tier=${1:-quick}; export VERIF_SEED=${2:-0}
-cd /verif
+cd "$(dirname "$0")/.."
 for i in $(seq -w 1 20); do
   s=$(date +%s)
   out=$(./vcheck C$i $tier 2>&1); rc=$?
